@@ -231,7 +231,7 @@ fn apply(w: &mut World, op: &ROp) -> OpResult {
 }
 
 /// A chunk size that no allocation can satisfy.
-pub const HUGE_CHUNK: usize = isize::MAX as usize + 1;
+pub const HUGE_CHUNK: usize = isize::MAX as usize;
 
 /// What the model expects the op to do (documented behaviour); only used outside C14-resync.
 fn model_step(m: &mut Model, op: &ROp) {
@@ -559,9 +559,17 @@ fn alphabet(cfg: &Cfg, mode: Mode, w: &World, tier: Tier) -> Vec<ROp> {
         // a chunk size no allocation can satisfy (legal through the safe API): the refill panics with
         // a capacity overflow (caught); the window must still be what it was. Short streams only.
         if cfg.n <= 3 && cfg.lie.is_none() && w.reader.verif_state().chunk_size != 0 && w.reader.verif_state().chunk_size < HUGE_CHUNK {
-            ops.push(ROp::SetChunk(HUGE_CHUNK));
-            // (2^63 makes `2 * chunk` wrap to zero, usize::MAX does not: different paths in a build
-            // without overflow checks)
+            // 2^63 - 1 passes every doubling / addition and fails in the allocation itself; 2^63 makes
+            // `2 * chunk` wrap to zero, usize::MAX makes the additions wrap: different paths
+            // (2^63 - 1 only with something in the buffer: then the size asked for exceeds isize::MAX
+            // and the refill panics with a capacity overflow; with an empty buffer it is a real
+            // request for 2^63 - 1 bytes, whose failure ends the process - an allocation failure,
+            // not a question of this property)
+            let stv = w.reader.verif_state();
+            if stv.pos_in_buf + stv.valid_len > 0 {
+                ops.push(ROp::SetChunk(HUGE_CHUNK));
+            }
+            ops.push(ROp::SetChunk(HUGE_CHUNK + 1));
             ops.push(ROp::SetChunk(usize::MAX));
         }
     }
